@@ -64,6 +64,37 @@ def e2e_scenario(subs, boxes, pairs):
     return ops, first
 
 
+ROLE_USER = "dora@example.com"
+ROLE_ADDR = "proj@example.com"
+ROLE_BOXES = ["Projects", "Projects/2024", "Projects/2024/Q1", "a/b", "Zed"]
+ROLE_REFS = ["", "Roles", "Roles/", "Roles/%s" % ROLE_ADDR, "Roles/%s/" % ROLE_ADDR, "Roles/%s/Projects/" % ROLE_ADDR, "R", "Roles/p"]
+ROLE_PATS = ["%", "*", "%/%", "%/%/%", "%/INBOX", "Roles/%", "Roles/%/%", "INBOX", "Projects/%", "P%", "*2024", "%/%/Projects/%", "/%"]
+
+
+def role_scenario(pairs):
+    """dora is assigned to a role mailbox that has nested folders; LIST and LSUB with references"""
+    ops = [{"op": "open", "conn": "c0", "kind": "tls"},
+           {"op": "send", "conn": "c0", "data": "a0 LOGIN %s pw\r\n" % ROLE_USER, "until": "tag:a0", "timeout_ms": 20000},
+           {"op": "send", "conn": "c0", "data": "a1 LOGOUT\r\n", "until": "tag:a1", "timeout_ms": 20000},
+           {"op": "role_create", "email": ROLE_ADDR},
+           {"op": "role_assign", "user": ROLE_USER, "role": 1}]
+    for b in ROLE_BOXES:
+        ops.append({"op": "sql_exec", "store": "role_db_1", "q": "INSERT INTO mailboxes (user_id, name, uid_validity, uid_next) VALUES (0, '%s', 77, 1)" % b})
+    ops += [{"op": "open", "conn": "c", "kind": "tls"},
+            {"op": "send", "conn": "c", "data": "b0 LOGIN %s pw\r\n" % ROLE_USER, "until": "tag:b0", "timeout_ms": 20000},
+            # a non-empty subscription list (for an empty one LSUB presents the five defaults: C11's concern, not modelled here)
+            {"op": "send", "conn": "c", "data": 'b1 SUBSCRIBE "INBOX"\r\n', "until": "tag:b1", "timeout_ms": 20000},
+            {"op": "send", "conn": "c", "data": 'b2 SUBSCRIBE "Work/Notes"\r\n', "until": "tag:b2", "timeout_ms": 20000}]
+    first = len(ops)
+    ops.append({"op": "sql", "store": "user_db_1", "q": "SELECT mailbox_name FROM subscriptions ORDER BY mailbox_name"})
+    ops.append({"op": "sql", "store": "user_db_1", "q": "SELECT name FROM mailboxes ORDER BY name"})
+    ops.append({"op": "sql", "store": "role_db_1", "q": "SELECT name FROM mailboxes ORDER BY name"})
+    for i, (r, pt) in enumerate(pairs):
+        ops.append({"op": "send", "conn": "c", "data": 's%d LSUB "%s" "%s"\r\n' % (i, r, pt), "until": "tag:s%d" % i, "timeout_ms": 20000})
+        ops.append({"op": "send", "conn": "c", "data": 'l%d LIST "%s" "%s"\r\n' % (i, r, pt), "until": "tag:l%d" % i, "timeout_ms": 20000})
+    return ops, first
+
+
 LINE_RE = re.compile(rb'^\* (LIST|LSUB) \(([^)]*)\) "/" (.*)$')
 
 
@@ -115,7 +146,42 @@ def run_e2e(chk):
                                   {"suite": "e2e", "kind": kind, "reference": rf, "pattern": pt, "base": [b.decode("latin-1") for b in base]})
                     continue
                 cases.append((kind, rf, pt, base, sorted(set(n for n, ns in names if ns)), sorted(n for n, ns in names if not ns)))
+    # a user with an assigned role mailbox (nested folders in the role store)
+    rpairs = [(r, pt) for r in ROLE_REFS for pt in ROLE_PATS]
+    if chk.tier == "quick":
+        rpairs = [("Roles/%s/" % ROLE_ADDR, "%"), ("Roles/", "%/%"), ("Roles", "%/INBOX"), ("", "*"), ("", "%"), ("Roles/", "%"), ("", "Roles/%/%")] + rng.sample(rpairs, 30)
+    rops, rfirst = role_scenario(rpairs)
+    rr = C.run_ops(rops, timeout=600)
+    rcases = []      # (is_lsub, ref, pat, base (subs or boxes), role boxes, noselect names, plain names)
+    if rr.get("crashed") or len(rr.get("obs", [])) < rfirst + 3:
+        chk.broken_obligation("driver crashed in the C18 role-mailbox LIST/LSUB session: %s" % rr.get("stderr", "")[:400])
+        return 0
+    robs = rr["obs"]
+    def col(o):
+        return [C.unlatin(x[0]) if isinstance(x[0], str) else x[0] for x in (o.get("rows") or [])]
+    rsubs, rboxes, rrole = col(robs[rfirst]), col(robs[rfirst + 1]), col(robs[rfirst + 2])
+    if not rrole or b"INBOX" not in rboxes:
+        chk.notes.append("C18 role scenario could not be set up (role store or account missing); skipped")
+    else:
+        for i, (rf, pt) in enumerate(rpairs):
+            for kind, o, base in (("lsub", robs[rfirst + 3 + 2 * i], rsubs), ("list", robs[rfirst + 4 + 2 * i], rboxes)):
+                ok, names = parse_listing(C.unlatin(o.get("recv", "")))
+                if not ok:
+                    chk.violation("%s %r %r (user with a role mailbox) was not answered OK: %r" % (kind.upper(), rf, pt, o.get("recv", "")[:200]),
+                                  {"suite": "e2e_role", "kind": kind, "reference": rf, "pattern": pt})
+                    continue
+                rcases.append((kind, rf, pt, base, rrole, sorted(set(n for n, ns in names if ns)), sorted(n for n, ns in names if not ns)))
     body = C.COQ_CASE_HEADER + "From Raven Require Import Base.Enum Model.Pattern.\n"
+    body += "Definition role_cases : list (bool * str * str * list str * list str * list str * list str) := [\n%s].\n" % ";\n".join(
+        "(%s, %s, %s, %s, %s, %s, %s)" % (C.coq_bool(k == "lsub"), C.coq_str(rf), C.coq_str(pt), C.coq_list([C.coq_str(x) for x in base]), C.coq_list([C.coq_str(x) for x in rb]),
+                                          C.coq_list([C.coq_str(x) for x in ns]), C.coq_list([C.coq_str(x) for x in pl])) for (k, rf, pt, base, rb, ns, pl) in rcases)
+    body += ("Definition set_eqb0 (a b : list str) := forallb (fun x => mem_str x b) a && forallb (fun x => mem_str x a) b.\n"
+             "Definition role_ok (c : bool * str * str * list str * list str * list str * list str) : bool := let '(k, rf, pt, base, rb, ns, pl) := c in\n"
+             "  let rn := role_names [(%s, rb)] rf pt in\n"
+             "  let rns := filter role_noselect rn in let rpl := filter (fun n => negb (role_noselect n)) rn in\n"
+             "  if k then let '(i, m) := lsub_names base rf pt in set_eqb0 (i ++ rns) ns && set_eqb0 (m ++ rpl) pl && Nat.eqb (length (m ++ rpl)) (length pl)\n"
+             "  else set_eqb0 rns ns && set_eqb0 (filter_mailboxes base rf pt ++ rpl) pl && Nat.eqb (length (filter_mailboxes base rf pt ++ rpl)) (length pl).\n"
+             "Definition role_diff := Eval vm_compute in diff_positions Bool.eqb 0 (map (fun _ => true) role_cases) (map role_ok role_cases).\nPrint role_diff.\n" % C.coq_str(ROLE_ADDR))
     body += "Definition e2e_cases : list (bool * str * str * list str * list str * list str) := [\n%s].\n" % ";\n".join(
         "(%s, %s, %s, %s, %s, %s)" % (C.coq_bool(k == "lsub"), C.coq_str(rf), C.coq_str(pt), C.coq_list([C.coq_str(x) for x in base]),
                                       C.coq_list([C.coq_str(x) for x in ns]), C.coq_list([C.coq_str(x) for x in pl])) for (k, rf, pt, base, ns, pl) in cases)
@@ -140,11 +206,26 @@ def run_e2e(chk):
                       % (k.upper(), rf, pt, [x.decode("latin-1") for x in base], [x.decode("latin-1") for x in ns], [x.decode("latin-1") for x in pl]),
                       {"suite": "e2e", "kind": k, "reference": rf, "pattern": pt, "base": [x.decode("latin-1") for x in base],
                        "noselect": [x.decode("latin-1") for x in ns], "plain": [x.decode("latin-1") for x in pl]})
+    rtxt = C.parse_coq_list_out(log, "role_diff")
+    rbad = []
+    if rtxt is None:
+        chk.broken_obligation("could not read role_diff from Coq output:\n" + log[-1500:])
+    else:
+        rtxt = rtxt.strip()
+        rbad = [] if rtxt == "[]" else [int(x) for x in rtxt.strip("[]").replace("%nat", "").split(";") if x.strip()]
+    for i in rbad[:4]:
+        k, rf, pt, base, rb, ns, pl = rcases[i]
+        chk.violation("%s %r %r for a user assigned to role mailbox %s (role folders %s) answered \\Noselect %s and %s; the model of the handler answers differently"
+                      % (k.upper(), rf, pt, ROLE_ADDR, [x.decode("latin-1") for x in rb], [x.decode("latin-1") for x in ns], [x.decode("latin-1") for x in pl]),
+                      {"suite": "e2e_role", "kind": k, "reference": rf, "pattern": pt, "noselect": [x.decode("latin-1") for x in ns], "plain": [x.decode("latin-1") for x in pl]})
+    chk.cov["e2e_role_cases"] = len(rcases)
+    chk.cov["e2e_role_nonempty_answers"] = sum(1 for c in rcases if any(x.startswith(b"Roles") for x in c[5] + c[6]))
+    chk.cov["e2e_role_disagreements"] = len(rbad)
     chk.cov["e2e_session_cases"] = len(cases)
     chk.cov["e2e_lsub_with_implied_parent"] = sum(1 for c in cases if c[0] == "lsub" and c[4])
     chk.cov["e2e_nonempty_answers"] = sum(1 for c in cases if c[5] or c[4])
     chk.cov["e2e_disagreements"] = len(bad)
-    return len(cases)
+    return len(cases) + len(rcases)
 
 
 def gen_long(chk, n):
@@ -291,7 +372,7 @@ def run(chk):
                            "preceding_calls": [list(c) for c in cases[max(0, i - 6):i]] if name == "rand_diff" else []})
     ne2e = run_e2e(chk)
     chk.cov["evaluations"] += ne2e
-    chk.cov["disagreements_checked"] = nd + chk.cov.get("e2e_disagreements", 0)
+    chk.cov["disagreements_checked"] = nd + chk.cov.get("e2e_disagreements", 0) + chk.cov.get("e2e_role_disagreements", 0)
     chk.cov["rule"] += ("; plus LSUB and LIST through a real IMAP session (subscription lists with unsubscribed parents, references with and without trailing delimiter, "
                         "patterns with %, * and literals): answered names with and without \\Noselect compared with Model/Pattern.lsub_names / filter_mailboxes")
 
